@@ -540,7 +540,7 @@ func init() {
 		Rule: "explicit-state search: states = real input.Point values (measurement, time, tags, fields with Go types AND the key index), initial states = 4 points over {a field, t1 tag, message, small-int/float32 fields} covering every supported field type; " +
 			"transitions = 139 scripts (one builtin call each, incl. the `_` spelling) run by the real engine on a deep clone (add_key x 5 keys x 7 value kinds, add_key(k), set_tag(k[, literal | attribute expression | other key]), add_key(k, attribute expression), drop_key, rename over all ordered key pairs, cast x 4 types, set_measurement(k,true), default_time, uppercase, grok writing typed captures); " +
 			"breadth-first to depth 3 (thorough: a fourth level over the events about three of the keys) with depth-aware de-duplication on the canonical state (a state is expanded again when met nearer the root); in every state: I1 every output key reads back (Point.Get and a script read) with exactly the stored value and type, I2 no key is tag and field, I3 field types, I4 no read returns a value the output lacks, I5 every output key can be dropped and renamed (one-step look-ahead), I6 no two keys share one (pooled) index entry object, I7 a plain-expression read of the event's key inside the event script, directly after the builtin, gives what the point then holds; plus agreement with the reference point model",
-		Assumptions: []string{"level 1 is sharded across workers, de-duplication is per worker (states reached in several subtrees are checked more than once)", "reference tracking stops after an unspecified cell (rename onto an existing key)"},
+		Assumptions: []string{"level 1 is sharded across workers, de-duplication is per worker (states reached in several subtrees are checked more than once)"},
 		Run:            c10Run,
 		Replay:         c10Replay,
 		QuickBudget:    5 * time.Minute,
